@@ -93,6 +93,32 @@ pub fn check_parent(run: &mut Run, c: MCell, class: &str) {
             Err(e) => run.violation("C12.ok", case(), format!("cell_to_lonlat({}) failed: {e}", hu(*k))),
         }
     }
+    // the same overlap measured from what the API REPORTS (rings of parent and children, corners only, in the tangent plane at
+    // the parent's reported centre): for all parents of resolution >= 24, where a reported coordinate that is off by 1e-10 rad
+    // matters, and for a sample of the others
+    if c.res >= 24 || mix(id, 0x12b) % 8 == 0 {
+        if let Ok(pring) = ring_units(id, 1) {
+            let (e1, e2) = tangent_basis(pc);
+            let to_plane = |ring: &Vec<V3>| -> Vec<P2> { ring.iter().map(|v| gnomonic(*v, pc, e1, e2)).collect() };
+            let pp = to_plane(&pring);
+            for k in &kids {
+                if let Ok(kring) = ring_units(*k, 1) {
+                    let kp = to_plane(&kring);
+                    let karea = poly_area2(&kp).abs() / 2.0;
+                    let inter = clip_convex(&kp, &pp);
+                    let iarea = if inter.len() >= 3 { poly_area2(&inter).abs() / 2.0 } else { 0.0 };
+                    run.count("reported_rings.child_overlaps_measured");
+                    if run.margin("one_minus_shared_fraction_of_child_by_reported_rings", 1.0 - iarea / karea, 1.0 - 1e-6, || json!({"cell": hu(id), "child": hu(*k)})) {
+                        run.violation(
+                            "C12.overlap",
+                            json!({"cell": hu(id), "res": c.res, "child": hu(*k), "class": class, "view": "reported rings"}),
+                            format!("by their reported boundaries child {} shares no interior area with its parent {} (shared fraction of the child {:.3e})", hu(*k), hu(id), iarea / karea),
+                        );
+                    }
+                }
+            }
+        }
+    }
     let cov = cover / parea;
     if run.margin("one_minus_cover_fraction", 1.0 - cov, 0.5, case) {
         run.violation("C12.cover", case(), format!("children cover only {:.4} of the parent's area (must exceed 0.5)", cov));
